@@ -32,7 +32,7 @@ P["C02"] = dict(
          "position with its defined score >= threshold, no duplicates), completeness (the yielded multiset is exactly the "
          "positions at or above the threshold) for every block size, sequence length (incl. L<M, L=0, rows a multiple of the "
          "block size) and threshold, no panic, termination; by induction over blocks. Tie: extracted model vs Scanner on "
-         "generated scans (bit-exact hits, all arms, take(k) prefixes).",
+         "generated scans (bit-exact hits, all arms, take(k) prefixes). Thorough tier adds the 30 end-to-end composition theorems of coq/e2e (text -> encode -> stripe -> configure -> Scanner, bridges between the groups' models) as obligations.",
     note=COMMON_NOTE + "The 8-bit pre-filter's conservativeness is C08's theorem (exact arithmetic); striping/scoring/max kernels are taken by their specifications proved in C01/C04/C07.",
     technique="Coq proof (induction over blocks, invariant on buffered hits) + extracted-model correspondence check",
     design="DESIGN.md section 3, C02")
@@ -207,7 +207,7 @@ def main():
         "engines": [
             {"name": "coq", "path": "coq/", "serves_properties": ENGINE_PROPS,
              "kind_free_text": "Coq 8.16.1 developments: coq/base (shared), one directory per model group with Model/Proofs/Extract files; "
-                               "property theorems in coq/<group>/Cnn.v; Gen*.v regenerated from /repo by translate/"},
+                               "property theorems in coq/<group>/Cnn.v; Gen*.v regenerated from /repo by translate/; coq/e2e composes the groups end to end (`./check e2e`, obligations of C02/C03 in the thorough tier)"},
             {"name": "harness", "path": "harness/", "serves_properties": ENGINE_PROPS,
              "kind_free_text": "Rust crate with path dependencies on /repo (hooks on): generators and implementation drivers, one binary per model group"},
             {"name": "drivers", "path": "ocaml/", "serves_properties": ENGINE_PROPS,
